@@ -110,6 +110,28 @@ func families(rng *rand.Rand, thorough bool) []input {
 		add(fmt.Sprintf("run-sp-%d", n), bytes.Repeat([]byte{' '}, n))
 		add(fmt.Sprintf("run-nul-%d", n), bytes.Repeat([]byte{0}, n))
 	}
+	// inputs that end inside a repetition which the stale contents of the lookahead buffer would continue: texts ending
+	// in blanks (the initial window fill), short inputs ending in NULs, long inputs ending inside a pattern whose period
+	// divides the window size
+	for _, n := range []int{61, 200, 1000, 1988} {
+		var sb strings.Builder
+		for sb.Len() < n-5 {
+			sb.WriteString([]string{"winlink ", "radio ", "message ", "de LA5NTA ", "73 "}[rng.Intn(5)])
+		}
+		for _, tail := range []int{3, 5, 40} {
+			add(fmt.Sprintf("blank-tail-%d-%d", n, tail), []byte(sb.String()[:n-5]+strings.Repeat(" ", tail)))
+		}
+	}
+	for _, n := range []int{10, 40, 59} {
+		add(fmt.Sprintf("nul-tail-%d", n), append(bytes.Repeat([]byte{'k'}, n-6), 0, 0, 0, 0, 0, 0))
+	}
+	for _, p := range []int{2, 4, 8} {
+		d := make([]byte, 2048+333)
+		for i := range d {
+			d[i] = byte('A' + i%p)
+		}
+		add(fmt.Sprintf("pattern-tail-%d", p), d)
+	}
 	// random, text, binary with structure
 	sizes := []int{1, 2, 10, 61, 500, 4000, 20000}
 	if thorough {
@@ -145,6 +167,19 @@ func families(rng *rand.Rand, thorough bool) []input {
 	big := make([]byte, 70000)
 	rng.Read(big)
 	add("rebuild-70000", big)
+	// a rebuild with 0x00 frequent and 0x01 rare but present before and after it (the two lowest leaves of the tree)
+	sk01 := make([]byte, 48000)
+	for i := range sk01 {
+		switch v := rng.Intn(100); {
+		case v < 30:
+			sk01[i] = 0
+		case v < 31:
+			sk01[i] = 1
+		default:
+			sk01[i] = byte(2 + rng.Intn(254))
+		}
+	}
+	add("rebuild-skew01-48000", sk01)
 	return in
 }
 
@@ -238,6 +273,25 @@ func readSession(stream []byte, crc bool, sched []int, plain []byte, valid bool,
 	return readSessionStop(stream, crc, sched, plain, valid, hdrOK, decl, canon, -1)
 }
 
+// srcChunk > 0: the compressed stream reaches the Reader through a source that returns at most srcChunk bytes per Read
+// (a network connection delivering small segments), instead of a bytes.Reader.
+var srcChunk int
+
+type slowSource struct {
+	data []byte
+	k    int
+}
+
+func (s *slowSource) Read(p []byte) (int, error) {
+	if len(s.data) == 0 {
+		return 0, io.EOF
+	}
+	n := min(min(s.k, len(p)), len(s.data))
+	copy(p, s.data[:n])
+	s.data = s.data[n:]
+	return n, nil
+}
+
 // readSessionStop: as readSession, but the caller stops reading (and calls Close) once it has stopAfter bytes (-1: reads to the end).
 func readSessionStop(stream []byte, crc bool, sched []int, plain []byte, valid bool, hdrOK bool, decl int, canon func(got []byte) bool, stopAfter int) (evs []rec.Event, got []byte, closeErr error) {
 	defer func() {
@@ -245,7 +299,11 @@ func readSessionStop(stream []byte, crc bool, sched []int, plain []byte, valid b
 			evs = append(evs, rec.Event{"op": "Panic", "text": fmt.Sprint(p)})
 		}
 	}()
-	r, err := lzhuf.NewReader(bytes.NewReader(stream), crc)
+	var src io.Reader = bytes.NewReader(stream)
+	if srcChunk > 0 {
+		src = &slowSource{data: stream, k: srcChunk}
+	}
+	r, err := lzhuf.NewReader(src, crc)
 	plen := decl
 	if valid {
 		plen = len(plain)
@@ -451,7 +509,7 @@ func MainRun(args []string) int {
 		}
 	}
 	ins := families(rng, thorough)
-	nExec, nInputs := 0, 0
+	nExec, nInputs, multiDec := 0, 0, 0
 	readScheds := [][]int{{4096}, {1}, {2}, {59}, {60}, {61}, {3, 1, 7}}
 	for idx, in := range ins {
 		nInputs++
@@ -476,6 +534,11 @@ func MainRun(args []string) int {
 				}
 				comp, err := safeCompress(in.data, part, crc)
 				evs = append(evs, rec.Event{"op": "WClose", "ok": err == nil, "same": err == nil && bytes.Equal(comp, ref)})
+				// C07 (a'): streams produced through several Write calls are the compressor's streams too
+				if err == nil && crc && *budget > 0 && len(part) > 1 && len(in.data) <= 400 && len(in.data) > 1 && multiDec < 40 && (in.name != "short" || idx%13 == 0) {
+					multiDec++
+					addDec(fmt.Sprintf("%s/writes=%v", in.name, part), comp, crc, in.data)
+				}
 				if err != nil {
 					w.Write(map[string]interface{}{"input": in.name, "len": len(in.data)}, evs)
 					continue
@@ -507,10 +570,15 @@ func MainRun(args []string) int {
 			// window-boundary shapes are always judged by the reference codec (they are where a wrong lookahead mirror,
 			// window size or wrap shows), the rest within the symbol budget
 			priority := *budget > 0 && (strings.HasPrefix(in.name, "zero60-at-5") || strings.HasPrefix(in.name, "zero60-at-6") || strings.HasPrefix(in.name, "repeat-at"))
-			if crc && (priority || spent+cost <= *budget || (thorough && in.name == "rebuild-70000")) && len(in.data) > 0 {
+			if *budget > 0 && (in.name == "rebuild-skew01-48000" || (thorough && strings.HasPrefix(in.name, "rebuild-"))) {
+				priority = true // the adaptive tree rebuild is always judged by the reference codec (the decode is linear in its length)
+			}
+			if crc && (priority || spent+cost <= *budget) && len(in.data) > 0 {
 				if in.name != "short" || idx%7 == 0 || thorough {
 					addDec(in.name, ref, crc, in.data)
-					spent += cost
+					if !strings.HasPrefix(in.name, "rebuild-") { // the rebuild jobs come on top of the budget
+						spent += cost
+					}
 				}
 			}
 			if !crc && spent+cost <= *budget && idx%11 == 0 && len(in.data) > 0 {
@@ -624,9 +692,11 @@ func MainJudge(args []string) int {
 			w.Write(map[string]interface{}{"job": j.Name}, []rec.Event{{"op": "RefEncodeIncomplete"}})
 			return nil
 		}
-		for _, sc := range [][]int{{4096}, {1}, {60}, {7, 1}} {
+		for si, sc := range [][]int{{4096}, {1}, {60}, {7, 1}} {
+			srcChunk = []int{0, 1, 3, 0}[si] // the stream arrives whole, byte by byte, or in 3-byte segments
 			evs, _, _ := readSession(stream, true, sc, plain, true, true, len(plain), nil)
-			w.Write(map[string]interface{}{"job": j.Name, "sched": sc, "len": len(plain)}, evs)
+			w.Write(map[string]interface{}{"job": j.Name, "sched": sc, "len": len(plain), "srcchunk": srcChunk}, evs)
+			srcChunk = 0
 		}
 		// and without the CRC header
 		evs, _, _ := readSession(stream[2:], false, []int{61}, plain, true, true, len(plain), nil)
